@@ -336,7 +336,7 @@ size_t ZSTD_seekable_writeSeekTable(ZSTD_frameLog* fl, ZSTD_outBuffer* output)
 
     if (output->size - output->pos < 1) return seekTableLen - fl->seekTablePos;
     if (fl->seekTablePos < seekTableLen - 4) {
-        BYTE const sfd = (BYTE)((fl->checksumFlag) << 7);
+        BYTE const sfd = (BYTE)((fl->checksumFlag != 0) << 7);
 
         ((BYTE*)output->dst)[output->pos] = sfd;
         output->pos++;
